@@ -75,27 +75,6 @@ macro_rules! contains {
 }
 
 harnesses! {
-    fn c12_p_and_noread [6] {
-        let w = any_words::<2>();
-        let s = arr::<Iupac, 32, 2>(w);
-        let r: Seq<Iupac> = &s[0..1] & &s[4..5];
-        assert!(r.len() == 1, "p");
-        core::mem::forget(r);
-    }
-    fn c12_p_toowned_read [6] {
-        let w = any_words::<2>();
-        let s = arr::<Iupac, 32, 2>(w);
-        let r: Seq<Iupac> = s[0..1].to_owned();
-        assert!(r.nth(0).to_bits() == sym(&w, 0, 4, 0), "p");
-        core::mem::forget(r);
-    }
-    fn c12_p_and_raw [6] {
-        let w = any_words::<2>();
-        let s = arr::<Iupac, 32, 2>(w);
-        let r: Seq<Iupac> = &s[0..1] & &s[4..5];
-        assert!(r.into_raw()[0] & 15 == (w[0] & (w[0] >> 16)) & 15, "p");
-        core::mem::forget(r);
-    }
     fn c12_q_symbol_union_intersection [2] {
         // all 256 symbol pairs: the decoded symbol of a|b / a&b is the IUPAC letter of the union / intersection
         let (a, b) = (any_u8(), any_u8());
@@ -132,7 +111,7 @@ harnesses! {
         reach!("end");
     }
     fn c12_q_owned_or_1_9_n2 [10] { owned_bitop!(1, 9, 2, true) }
-    fn c12_t_owned_and_15_0_n2 [10] { owned_bitop!(15, 0, 2, false) }
+    fn c12_q_owned_and_15_0_n2 [10] { owned_bitop!(15, 0, 2, false) }
 
     fn c12_t_contains_0_2_5_2 [10] { contains!(0, 2, 5, 2, 0) }
     fn c12_t_contains_15_2_1_2 [10] { contains!(15, 2, 1, 2, 0) }
